@@ -530,7 +530,9 @@ class _Validator(Generic[T]):
         self, msg: str, cause: Exception | None = None
     ) -> InvalidMetadata:
         exc = InvalidMetadata(
-            self.raw_name, msg.format_map({"field": repr(self.raw_name)})
+            # Not str.format(): the message may quote a value containing braces.
+            self.raw_name,
+            msg.replace("{field}", repr(self.raw_name)),
         )
         exc.__cause__ = cause
         return exc
